@@ -11,6 +11,7 @@ mod mani_run;
 mod setsum_replay;
 mod damage;
 mod tkey;
+mod wire;
 
 /// No single allocation above the limit: a reader that sizes a buffer from damaged bytes must not take the
 /// machine down; the request fails, Rust aborts, and the abort is reported with the case in flight (C09).
@@ -53,6 +54,7 @@ fn main() {
         "mani-run" => mani_run::run(&args[2..]),
         "mani-recover" => mani_run::recover(&args[2..]),
         "mani-cuts" => mani_run::cuts(&args[2..]),
+        "wire-replay" => wire::main(&args[2..]),
         "tkey-replay" => tkey::main(&args[2..]),
         "damage-run" => damage::main(&args[2..]),
         "setsum-replay" => setsum_replay::main(&args[2..]),
